@@ -187,7 +187,7 @@ func runC17(c *Ctx) {
 			// exchange synchronous
 			okSync := false
 			for _, ci := range callsIn(dl) {
-				if f := staticCallee(ci); f != nil && f.Name() == "exchange" {
+				if f := staticCallee(ci); f != nil && f == p.Fn("common/turbotunnel", "(*RedialPacketConn).exchange") {
 					_, isCall := ci.(*ssa.Call)
 					okSync = isCall && isResultOfCall(ci.Common().Args[1], dial, 0)
 				}
